@@ -6,6 +6,7 @@ from ..core.model import CallableModel
 from ..core.utils import process_object, register_class
 from ..distributions.distributions import DistributionModel
 from ..typing import ID
+from .kl import _log_q
 
 
 @register_class
@@ -42,7 +43,7 @@ class CUBO(CallableModel):
     def _call(self, *args, **kwargs) -> torch.Tensor:
         samples = kwargs.get('samples', self.samples)
         self.q.rsample(samples)
-        log_w = self.p() - self.q()
+        log_w = self.p() - _log_q(self.q, samples)
         log_max = torch.max(log_w)
         log_w_rescaled = torch.exp(log_w - log_max) ** self.n
         return torch.log(log_w_rescaled.mean()) / self.n + log_max
